@@ -8,12 +8,53 @@ import (
 	"verifh/hx"
 )
 
-func kind(r *rand.Rand, tags map[string]bool) string {
+func kind(r *rand.Rand, tags map[string]bool) any {
 	if r.Intn(6) == 0 {
 		tags["panic"] = true
-		return "KPanic"
+		return panicKind(r, tags)
 	}
 	return "KOk"
+}
+
+func kpv(v string) hx.T { return hx.C("KPanicV", v) }
+
+// a panicking closure: a string, or one of the panic values - a script keeps coming back to
+// the few values it started with, so that the same dynamic type panics again and again
+func panicKind(r *rand.Rand, tags map[string]bool) any {
+	if r.Intn(3) == 0 {
+		return "KPanic"
+	}
+	tags["panic-value"] = true
+	fav := pvalNames[(r.Intn(3)*7+len(tags))%len(pvalNames)]
+	if r.Intn(3) > 0 {
+		return kpv(fav)
+	}
+	return kpv(pvalNames[r.Intn(len(pvalNames))])
+}
+
+// every ordered pair of panic values (the plain string included), scripted: the closures that
+// panic come from one or two posters, closures that return sit between and behind them
+func enumPanicPairs(emit func([]hx.T)) {
+	all := []any{"KPanic"}
+	for _, v := range pvalNames {
+		all = append(all, kpv(v))
+	}
+	for i, a := range all {
+		for j, b := range all {
+			p2 := int64((i + j) % 2)
+			emit([]hx.T{hx.C("OPost", 0, a), hx.C("OPost", 0, "KOk"), hx.C("OPost", p2, b), hx.C("OPost", 1, "KOk"),
+				hx.C("OStep"), hx.C("OStep"), hx.C("OPost", p2, "KOk")})
+		}
+	}
+}
+
+// a program for one poster: panics with the given values, a returning closure after each
+func panicProg(vals ...any) []any {
+	var ks []any
+	for _, v := range vals {
+		ks = append(ks, v, "KOk")
+	}
+	return ks
 }
 
 func cbT(err bool, res ...int64) hx.Pair { return hx.Pair{A: err, B: hx.Norm(res)} }
@@ -161,6 +202,9 @@ func genChains(r *rand.Rand, tags map[string]bool) []hx.T {
 	type lk struct{ c, i int64 }
 	var laters []lk
 	for c := 0; c < nch; c++ {
+		if r.Intn(4) == 0 {
+			ops = append(ops, hx.C("OTaskPanics", pvalNames[r.Intn(len(pvalNames))]))
+		}
 		tasks := randChain(r, 5, r.Intn(4) == 0, tags)
 		decl := runnerOps[r.Intn(len(runnerOps))]
 		tags["runner-"+decl] = true
@@ -228,8 +272,8 @@ func genConc(r *rand.Rand, mode int64, maxPosters, maxLen int, tags map[string]b
 		ks := make([]any, n)
 		for j := range ks {
 			ks[j] = "KOk"
-			if mode < 2 && r.Intn(40) == 0 {
-				ks[j] = "KPanic"
+			if (mode < 2 || mode == 5) && r.Intn(40) == 0 {
+				ks[j] = panicKind(r, tags)
 				tags["panic"] = true
 			}
 		}
@@ -617,6 +661,46 @@ func Run(cfg *hx.Config) error {
 			emit(fmt.Sprintf("exhaustive-registry-%d", L), ops, map[string]bool{"registry": true})
 		})
 	}
+	// ---- panic values: what a closure / a waterfall task panics with
+	enumPanicPairs(func(ops []hx.T) {
+		emit("exhaustive-panic-pairs", ops, map[string]bool{"panic": true, "panic-value": true})
+	})
+	for _, mode := range []int64{0, 1, 5} {
+		// the real consumer loops: the same value twice, three times with a different one in between,
+		// and a run through all values
+		for _, v := range pvalNames {
+			other := pvalNames[(len(v)*5)%len(pvalNames)]
+			emit("consumer-loop-panics", []hx.T{hx.C("OConc", mode, []any{panicProg(kpv(v), kpv(v))})},
+				map[string]bool{"panic": true, "panic-value": true})
+			emit("consumer-loop-panics", []hx.T{hx.C("OConc", mode, []any{panicProg(kpv(v), kpv(other), kpv(v), kpv(v)), panicProg("KPanic")})},
+				map[string]bool{"panic": true, "panic-value": true})
+		}
+		var allv []any
+		for _, v := range pvalNames {
+			allv = append(allv, kpv(v), kpv(v))
+		}
+		emit("consumer-loop-panics", []hx.T{hx.C("OConc", mode, []any{panicProg(allv...), panicProg(allv...)})},
+			map[string]bool{"panic": true, "panic-value": true})
+	}
+	okPan := func(v int64) hx.T { return behT([]any{cbT(false, v)}, nil, true) } // completes, then panics
+	for vi, v := range pvalNames {
+		// waterfall tasks panicking with it, twice in one chain and in two chains, under every runner
+		// (Sche / Builder: recovered by the scheduler; Simple / ExecAndWait: reaches the caller)
+		for ri, decl := range runnerOps {
+			tasks := []any{okPan(1), okPan(2), behAlphabet(30)[0]}
+			ops := []hx.T{hx.C("OTaskPanics", v), hx.C(decl, 0, tasks), hx.C(runnerOps[(ri+vi)%2], 1, tasks), hx.C("OPost", 0, kpv(v)), hx.C("OPost", 0, "KOk")}
+			for i := 0; i < 8; i++ {
+				ops = append(ops, hx.C("OStep"))
+			}
+			emit("task-panic-values", ops, map[string]bool{"panic": true, "panic-value": true, "runner-" + decl: true})
+		}
+		emit("task-panic-values", []hx.T{hx.C("OTaskPanics", v), hx.C("OList", 0, []any{okPan(1), okPan(2)}),
+			hx.C("OShare", 0, 0, 0), hx.C("OShare", 1, 0, 1), hx.C("OStep"), hx.C("OStep"), hx.C("OStep"), hx.C("OStep"), hx.C("OStep"), hx.C("OStep")},
+			map[string]bool{"panic": true, "panic-value": true, "shared-list": true})
+		tg := map[string]bool{"panic": true, "panic-value": true}
+		emit("task-panic-values", []hx.T{hx.C("OTaskPanics", v), hx.C("OConcW", int64(vi%2), []any{
+			[]any{okPan(1), okPan(2), behAlphabet(30)[2]}, []any{okPan(5), behAlphabet(40)[0], okPan(6)}})}, tg)
+	}
 	// ---- shared task lists
 	for L := 0; L <= cdepth; L++ {
 		enumShared(L, func(how string, ops []hx.T, tl []string) {
@@ -721,7 +805,7 @@ func Run(cfg *hx.Config) error {
 	}
 	for i := 0; i < nConc; i++ {
 		tg := map[string]bool{}
-		emit("concurrent-posters", genConc(r, int64(i%4), 8, 60, tg), tg)
+		emit("concurrent-posters", genConc(r, []int64{0, 1, 2, 3, 5}[i%5], 8, 60, tg), tg)
 		tg = map[string]bool{}
 		emit("concurrent-chains", genConcW(r, int64(i%2), tg), tg)
 	}
@@ -731,7 +815,7 @@ func Run(cfg *hx.Config) error {
 		if thorough {
 			per = 2000
 		}
-		for mode := int64(0); mode < 4; mode++ {
+		for _, mode := range []int64{0, 1, 2, 3, 5} {
 			tg := map[string]bool{"many-posters": true}
 			emit("concurrent-posters-big", []hx.T{hx.C("OConcN", mode, 8, per)}, tg)
 		}
